@@ -1,7 +1,7 @@
 \* random formulas of the full grammar over 3 symbols
 CONSTANTS
   NS = 3
-  His = {3, 4, 6, 8}
+  His = {3, 4}
   Los = {1}
   N = 1000000
   Small = FALSE
